@@ -8,7 +8,9 @@ decoded its parts:
 * `region/client.go`  `receive` from the decoded header onward (`receiveDecide`): call-id lookup,
   exception fields through their nil-safe getters, response decode, the `cellsLen` bound check and
   `b[size-cellsLen:]` in `uint32`, decompression (a parameter), `DeserializeCellBlocks` (always for a
-  multi), the short-read check, and the delivery through `returnResult`;
+  multi), the short-read check, the delivery through the deferred `returnResult`, and
+  `serverErrorIn` (`serverErrorIn`, `finishOk`): a server-class exception inside an accepted multi
+  response fails the connection once every call has its result;
 * `region/multi.go`   `DeserializeCellBlocks` (`multiDeserialize`) and `returnResults` (`multiReturn`);
 * `hrpc/get.go`, `hrpc/mutate.go`  `DeserializeCellBlocks` (`getDeserialize`; the two are the same code);
 * `hrpc/scan.go`      `Scan.DeserializeCellBlocks` (`scanDeserialize`);
@@ -422,7 +424,10 @@ def Frame.WF (f : Frame) : Prop :=
 
 /-- The result of one `receive`: what was sent to which call (position 0 for a single call, position
 in `m.calls` for a multi), and whether `receive` returned a `ServerError` — then `receiveRPCs`
-calls `c.fail`, the orderly connection failure of C03, which completes every other registered call. -/
+calls `c.fail`, the orderly connection failure of C03, which completes every other registered call.
+`receive` returns a `ServerError` for an unusable call id, for a server-class exception in the
+header, and — after every call of the multi has its result — for a server-class exception inside a
+multi response it accepted (`finishOk`). -/
 structure Verdict where
   deliveries : List (Nat × Delivery)
   connFail : Bool
@@ -438,8 +443,43 @@ def returnResult (rpc : Rpc) (msg : Msg) (err : Option ErrCls) : Outcome (List (
     | _ => .fault "msg.(*pb.MultiResponse)"
   | _ => .ok [(0, ⟨msg, err⟩)]
 
+/-- The deferred function of `receive` on a path that returns with `err != nil` (`serverErr` is still
+nil on every such path): `returnResult(rpc, response, err)`; `receive` returns `err`. -/
 def finish (rpc : Rpc) (msg : Msg) (err : Option ErrCls) : Outcome Verdict :=
   (returnResult rpc msg err).map (fun ds => ⟨ds, err == some .connErr⟩)
+
+/-- Does the exception of a multi response say that the regionserver itself is not in service
+(`exceptionToError(e.GetName(), string(e.Value)).(ServerError)`: the classes of
+`javaServerExceptions`)?  `GetName` is the nil-safe getter. -/
+def nbpIsServer (e : NameBytesPair) : Bool :=
+  exceptionToError (e.name.getD []) (e.value.getD []) == .connErr
+
+def excIsServer (e : Option NameBytesPair) : Bool :=
+  match e with
+  | some x => nbpIsServer x
+  | none => false
+
+/-- `serverErrorIn(mr) != nil`: some region-level or per-action exception of the response — of
+*every* `RegionActionResult`, also of one beyond the regions of the request — is server-class. -/
+def serverErrorIn (mr : MultiResp) : Bool :=
+  mr.rars.any (fun rar => excIsServer rar.exception || rar.roes.any (fun roe => excIsServer roe.exception))
+
+/-- `if isMulti { serverErr = serverErrorIn(response.(*pb.MultiResponse)) }`. -/
+def serverErrOf (rpc : Rpc) (msg : Msg) : Outcome Bool :=
+  match rpc, msg with
+  | .multi _, .multi mr => .ok (serverErrorIn mr)
+  | .multi _, _ => .fault "response.(*pb.MultiResponse)"
+  | _, _ => .ok false
+
+/-- The final `return` of `receive` (`err == nil`): `serverErr` is computed, then the deferred function
+gives every call its result exactly as `returnResult(rpc, response, nil)` does, and only then
+`err = serverErr`: a server-class exception inside a multi response makes `receive` return a
+`ServerError`, so `receiveRPCs` fails the connection as for such an exception in a header. -/
+def finishOk (rpc : Rpc) (msg : Msg) : Outcome Verdict :=
+  match serverErrOf rpc msg with
+  | .ok serverErr => (returnResult rpc msg none).map (fun ds => ⟨ds, serverErr⟩)
+  | .err e => .err e
+  | .fault w => .fault w
 
 /-- `if header.CellBlockMeta != nil { cellsLen = header.CellBlockMeta.GetLength() }` (a `uint32`). -/
 def cellsLenOf (h : ResponseHeader) : Nat :=
@@ -512,7 +552,7 @@ def receiveDecide (lookup : Nat → Option Rpc) (ctxDone : Bool)
   | some msg =>
   let cellsLen := cellsLenOf f.header
   -- if d, ok := rpc.(canDeserializeCellBlocks); (cellsLen > 0 || isMulti) && ok
-  if !((cellsLen > 0 || isMulti rpc) && canDeserialize rpc) then finish rpc msg none else
+  if !((cellsLen > 0 || isMulti rpc) && canDeserialize rpc) then finishOk rpc msg else
   -- uint64(cellsLen) > uint64(size)-uint64(headerLen)-uint64(responseLen)
   let rest := subU64 (subU64 size f.headerLen) respLen
   if cellsLen > rest then finish rpc msg (some .retryable) else
@@ -532,7 +572,7 @@ def receiveDecide (lookup : Nat → Option Rpc) (ctxDone : Bool)
   | .err _ => finish rpc msg (some .retryable)
   | .ok (msg', nread) =>
     -- int(nread) < len(b)
-    if nread < cb.length then finish rpc msg' (some .retryable) else finish rpc msg' none
+    if nread < cb.length then finish rpc msg' (some .retryable) else finishOk rpc msg'
 
 /-! ### scanner: coalescing of partial results (`scanner.go`) -/
 
